@@ -183,7 +183,7 @@ Definition step (c : cfg) (s : gst) (a : act) : option gst :=
   | AAlloc t d =>
     match nth_error app t with
     | Some p =>
-      if in_manager p then
+      if in_manager p && (0 <? usable s) then
         let cnt' := (cnt + d)%Z in
         let gc' := trigger_rule c gc cnt' in
         (* `notify_one` exactly when the state changes to `Triggered` *)
